@@ -1,15 +1,173 @@
 package main
 
 import (
+	"context"
 	"encoding/json"
 	"fmt"
+	"net/http/httptest"
 	"reflect"
 	"sort"
 	"strings"
 
 	icl "github.com/moov-io/imagecashletter"
 	client "github.com/moov-io/imagecashletter/client"
+	"github.com/moov-io/imagecashletter/verifhooks"
 )
+
+// clientOps drives the shipped client against the real handlers: what the client submits through each of its
+// mutating operations must be what the server stores, member for member of the client's own model (members the
+// client model does not have or spells differently are the recorded wire findings, not judged here) - in
+// particular when a later submission leaves blank a member an earlier one had set.
+func clientOps(rep *Report, f *icl.File, variant int) {
+	repo := verifhooks.NewInMemoryRepo()
+	srv := httptest.NewServer(verifhooks.NewRouter(repo))
+	defer srv.Close()
+	cfg := client.NewConfiguration()
+	cfg.BasePath = srv.URL
+	api := client.NewAPIClient(cfg).ImageCashLetterFilesApi
+	ctx := context.Background()
+	js, _ := json.Marshal(f)
+	var create client.CreateIclFile
+	if err := json.Unmarshal(js, &create); err != nil {
+		rep.count("client-op:create:client-cannot-hold-document")
+		return
+	}
+	create.ID = fmt.Sprintf("cli%d", variant)
+	rep.Evaluations++
+	if _, _, err := api.CreateICLFile(ctx, create, nil); err != nil {
+		// the known wire findings (member names / types) can make the server refuse the client's document
+		rep.count("client-op:create:refused")
+		f.ID = create.ID
+		if err := repo.SaveFile(f); err != nil {
+			return
+		}
+	} else {
+		rep.count("client-op:create:ok")
+	}
+	stored := func() *icl.File {
+		g, err := repo.GetFile(create.ID)
+		if err != nil || g == nil {
+			return nil
+		}
+		return g
+	}
+	viaClient := func(v any, out any) bool {
+		b, err := json.Marshal(v)
+		return err == nil && json.Unmarshal(b, out) == nil
+	}
+	// header updates: fully populated, then with the optional members blank, then populated again
+	var h1 client.IclFileHeader
+	if !viaClient(&f.Header, &h1) {
+		return
+	}
+	h1.ID = ""
+	h1.ImmediateDestinationName, h1.ImmediateOriginName, h1.FileIDModifier = "DESTNAME", "ORIGNAME", "A"
+	h1.CountryCode, h1.UserField, h1.CompanionDocumentIndicator = "US", "USER", "1"
+	h2 := h1
+	h2.ImmediateDestinationName, h2.ImmediateOriginName, h2.FileIDModifier = "", "", ""
+	h2.CountryCode, h2.UserField, h2.CompanionDocumentIndicator = "", "", ""
+	h3 := h1
+	h3.UserField, h3.ImmediateOriginName = "", "OTHER"
+	for i, h := range []client.IclFileHeader{h1, h2, h3, h2, h1} {
+		rep.Evaluations++
+		if _, _, err := api.UpdateICLFile(ctx, create.ID, h, nil); err != nil {
+			rep.count("client-op:update-header:refused")
+			continue
+		}
+		rep.count("client-op:update-header:ok")
+		g := stored()
+		var got client.IclFileHeader
+		if g == nil || !viaClient(&g.Header, &got) {
+			continue
+		}
+		got.ID = ""
+		if !reflect.DeepEqual(got, h) {
+			m := firstFieldDiff(reflect.ValueOf(h), reflect.ValueOf(got))
+			rep.violate(Violation{Key: "C20:client-op:update-header:" + m, What: fmt.Sprintf("UpdateICLFile #%d: the stored header differs from the one the client submitted in %s (submitted %+v, stored %+v)", i+1, m, h, got),
+				Replay: map[string]any{"step": i + 1, "submitted": h, "stored": got}})
+		}
+	}
+	// add a cash letter, twice with a member changed to blank in between
+	if len(f.CashLetters) > 0 {
+		var c1 client.CashLetter
+		if viaClient(&f.CashLetters[0], &c1) {
+			for i := 0; i < 2; i++ {
+				c := c1
+				if i == 1 && c.CashLetterHeader.OriginatorContactName != "" {
+					h := c.CashLetterHeader
+					h.OriginatorContactName = ""
+					c.CashLetterHeader = h
+				}
+				rep.Evaluations++
+				if _, err := api.AddICLToFile(ctx, create.ID, c, nil); err != nil {
+					rep.count("client-op:add-cash-letter:refused")
+					continue
+				}
+				rep.count("client-op:add-cash-letter:ok")
+				g := stored()
+				if g == nil || len(g.CashLetters) == 0 {
+					continue
+				}
+				var got client.CashLetter
+				if !viaClient(&g.CashLetters[len(g.CashLetters)-1], &got) {
+					continue
+				}
+				if !reflect.DeepEqual(got, c) {
+					m := firstFieldDiff(reflect.ValueOf(c), reflect.ValueOf(got))
+					rep.violate(Violation{Key: "C20:client-op:add-cash-letter:" + m, What: "AddICLToFile: the stored cash letter differs from the one the client submitted in " + m,
+						Replay: map[string]any{"step": i + 1, "member": m}})
+				}
+			}
+		}
+	}
+}
+
+// firstFieldDiff names the first exported member (path) in which two values of one type differ
+func firstFieldDiff(a, b reflect.Value) string {
+	switch a.Kind() {
+	case reflect.Struct:
+		if a.Type().String() == "time.Time" {
+			if !a.Interface().(interface{ IsZero() bool }).IsZero() || !b.Interface().(interface{ IsZero() bool }).IsZero() {
+				if !reflect.DeepEqual(a.Interface(), b.Interface()) {
+					return "(time)"
+				}
+			}
+			return ""
+		}
+		for i := 0; i < a.NumField(); i++ {
+			if a.Type().Field(i).PkgPath != "" {
+				continue
+			}
+			if d := firstFieldDiff(a.Field(i), b.Field(i)); d != "" {
+				return strings.TrimSuffix(a.Type().Field(i).Name+"."+d, ".(value)")
+			}
+		}
+		return ""
+	case reflect.Slice:
+		if a.Len() != b.Len() {
+			return "(length)"
+		}
+		for i := 0; i < a.Len(); i++ {
+			if d := firstFieldDiff(a.Index(i), b.Index(i)); d != "" {
+				return d
+			}
+		}
+		return ""
+	case reflect.Ptr:
+		if a.IsNil() != b.IsNil() {
+			return "(nil)"
+		}
+		if a.IsNil() {
+			return ""
+		}
+		return firstFieldDiff(a.Elem(), b.Elem())
+	default:
+		if !reflect.DeepEqual(a.Interface(), b.Interface()) {
+			return "(value)"
+		}
+		return ""
+	}
+}
 
 // jsonPaths flattens a JSON document into path -> canonical scalar (array indexes dropped from the
 // path used as key, kept in the full path), keys lower-cased (Go matches member names case-insensitively).
@@ -187,6 +345,7 @@ func runC20(cfg *config) *Report {
 			_ = g
 		}
 		rep.sample(map[string]any{"variant": variant, "members": len(paths), "json_bytes": len(js)})
+		clientOps(rep, f, variant)
 		// magnitudes: each integer member at the full width of its column
 		for li := range tables.Records {
 			L := &tables.Records[li]
